@@ -101,7 +101,7 @@ CLAIMS.update({
 
 CLAIMS.update({
     'C01': {
-        'text': 'SYSTEM LEVEL (exploration, synctest e2e): per stream the read history must be a prefix of, and after healing equal to, the accepted-write history over seeded workloads x fault schedules x modes x initial TSNs. COMPONENT LEVEL ONLY (reassembly queue). Proved in Lean on the L0 model of reassemblyQueue, for ordered DATA (SSN, TSN-contiguity) and ordered I-DATA (MID/FSN): '
+        'text': 'SUMMARY: proved in Lean - the composed theorem C01_netsysq_prefix / C01_netsys_prefix[_idata] (sender model + history network with loss, duplication, reordering + receiver model, reliable ordered streams: what the application reads on a stream is a PREFIX of what was written on it, in order, intact), built from the sender half (wire chunks are faithful copies), the receive half (duplicate filter + reassembly refinement) and the pending-queue model; every model is tied to the code by line-by-line differential replay. Exploration only: liveness, the byte copy in packetize, unordered / partially reliable / reset traffic in the composition, the phases around the transfer. Details follow. SYSTEM LEVEL (exploration, synctest e2e): per stream the read history must be a prefix of, and after healing equal to, the accepted-write history over seeded workloads x fault schedules x modes x initial TSNs. COMPONENT LEVEL (reassembly queue): proved in Lean on the L0 model of reassemblyQueue, for ordered DATA (SSN, TSN-contiguity) and ordered I-DATA (MID/FSN): '
                 'for every message list (any sizes, any count, any initial TSN incl. the 2^32 wrap), fragments pushed in ANY order, each at most once, interleaved arbitrarily with reads of '
                 'ANY buffer size and under any entry limit, the successful reads (PPI, bytes) form a PREFIX of the written messages; isComplete is characterised (complete iff exactly all '
                 'fragments of one message). Hypothesis forced by the 16/32-bit sequence space: the pushed fragment belongs to a message fewer than 2^15 (SSN) / 2^31 (MID) ahead of the reader. '
